@@ -4,20 +4,27 @@ class CaseTimeout(BaseException): pass
 def _on_alarm(sig, frm): raise CaseTimeout()
 def worker_main(handle, dict_results=False):
     """read one JSON case per line, print one JSON result per line; never let an exception kill the stream.  Every case runs
-    under a watchdog (VERIF_CASE_TIMEOUT seconds, default 120; 10 after two hangs in this worker): an implementation that
+    under a watchdog (VERIF_CASE_TIMEOUT seconds, default 60; 10 after the first hang in this worker; after three hangs the rest of the shard is not run): an implementation that
     does not terminate on a case yields a HANG result instead of stalling the whole check."""
     import signal, os
-    limit = float(os.environ.get('VERIF_CASE_TIMEOUT', '120')); hangs = 0
+    limit = float(os.environ.get('VERIF_CASE_TIMEOUT', '60')); hangs = 0
     for line in sys.stdin:
         line = line.strip()
         if not line: continue
-        signal.signal(signal.SIGALRM, _on_alarm); signal.setitimer(signal.ITIMER_REAL, limit if hangs < 2 else min(limit, 10.0))
+        if hangs >= 3:
+            # three cases of this shard did not terminate: the remaining ones are answered at once, so that a change that makes the
+            # implementation loop cannot stall the check (the hangs already recorded are the violation)
+            what = 'not run: three earlier cases of this shard did not terminate'
+            sys.stdout.write(json.dumps(dict(bad=[], outcome='skipped-after-hangs') if dict_results else ['HANG ' + what]) + '\n'); sys.stdout.flush()
+            continue
+        cur = limit if hangs < 1 else min(limit, 10.0)
+        signal.signal(signal.SIGALRM, _on_alarm); signal.setitimer(signal.ITIMER_REAL, cur)
         try:
             case = json.loads(line)
             out = handle(case)
         except CaseTimeout:
             hangs += 1
-            what = 'the implementation did not finish this case within %gs (watchdog)' % (limit if hangs <= 2 else min(limit, 10.0))
+            what = 'the implementation did not finish this case within %gs (watchdog)' % cur
             out = dict(bad=[dict(kind='hang', what=what)], outcome='hang') if dict_results else ['HANG ' + what]
         except BaseException as e:
             out = ['HARNESS-ERROR %s: %s' % (type(e).__name__, e)]
